@@ -10,6 +10,7 @@ TStep(e) ==
     [] e.a = "Result"    -> EvResult(e.t, e.r, e.v, e.d)
     [] e.a = "Fail"      -> EvFail(e.t)
     [] e.a = "Removable" -> EvRemovable(ToSet(e.S))
+    [] e.a = "NoJob"     -> EvNoJob
     [] e.a = "Crash"     -> EvCrash
 TNext == /\ l <= Len(Traces[tid].ev) /\ TStep(Traces[tid].ev[l]) /\ l' = l + 1 /\ tid' = tid
 TSpec == TInit /\ [][TNext]_tvars
